@@ -492,20 +492,23 @@ func (c *columns) LoadWithIndex(columnName string) ([]*column, bool) {
 // Store stores a column into the registry.
 func (c *columns) Store(columnName string, main *column, index ...*column) {
 
-	// Try to update an existing entry
-	columns := c.cols.Load().([]columnEntry)
+	// Try to update an existing entry. The published slice is read without a lock (commits
+	// iterate it), so it is never modified in place: we publish an updated copy instead.
+	columns := c.clone()
 	for i, v := range columns {
 		if v.name != columnName {
 			continue
 		}
 
 		// If we found an existing entry, update it and we're done
+		entry := append(make([]*column, 0, len(v.cols)+len(index)), v.cols...)
 		if main != nil {
-			columns[i].cols[0] = main
+			entry[0] = main
 		}
 		if index != nil {
-			columns[i].cols = append(columns[i].cols, index...)
+			entry = append(entry, index...)
 		}
+		columns[i].cols = entry
 		c.cols.Store(columns)
 
 		return
@@ -533,10 +536,18 @@ func (c *columns) DeleteColumn(columnName string) {
 	c.cols.Store(filtered)
 }
 
+// clone returns a copy of the published registry slice (with room for one more entry).
+func (c *columns) clone() []columnEntry {
+	current := c.cols.Load().([]columnEntry)
+	columns := make([]columnEntry, len(current), len(current)+1)
+	copy(columns, current)
+	return columns
+}
+
 // Delete deletes a column from the registry.
 func (c *columns) DeleteIndex(columnName, indexName string) {
 	index, _ := c.Load(indexName)
-	columns := c.cols.Load().([]columnEntry)
+	columns := c.clone()
 	for i, v := range columns {
 		if v.name != columnName {
 			continue
